@@ -56,13 +56,16 @@ def layout_source(layout, body, body2):
     if layout == 2:
         return (f".text\n{body}.data\n.long 0x11223344\n.quad 0x9090909090909090\n.section .plt,\"ax\"\n{body2}",
                 [".text", ".data", ".plt"])
+    if layout == 4:   # section names with upper-case letters; two names differing only in case
+        return (f".text\n{body}.section INIT,\"ax\"\n{body2}.section .CODE,\"ax\"\n ret\n.section .code,\"ax\"\n nop\n ret\n",
+                [".text", "INIT", ".CODE", ".code"])
     return ".data\n.long 0x11223344\n.byte 0xc3\n", [".data"]
 
 
 def section_lists(names):
     out = [None, []]
     out += [[n] for n in names]
-    out += [list(p) for p in itertools.permutations(names, 2)]
+    out += [list(p) for p in itertools.permutations(names[:3], 2)] + ([[names[2], names[3]], [names[3], names[2]]] if len(names) > 3 else [])
     out += [[".nosuch"], [names[0], ".nosuch"], [".nosuch", names[0]]]
     return out
 
@@ -83,9 +86,9 @@ def shards(tier):
     sh = []
     for cls in (64, 32):
         bodies = range(len(BODIES) + len(RAW)) if cls == 64 else range(len(BODIES32) + len(RAW))
-        for layout in range(4):
+        for layout in range(5):
             for b in bodies:
-                if layout == 3 and b > 0:
+                if layout in (3, 4) and b > 0:
                     continue
                 sh.append({"cls": cls, "layout": layout, "body": b})
     return sh
